@@ -60,6 +60,8 @@ def _walk(w, p, labels, owners=None):
         v = p.value
         if isinstance(v, Fiber):
             return [[[], _walk(w, v, labels)]]       # a boxed fiber: not a legal state
+        import ftutil as U
+        v = U.undress(v)
         if isinstance(v, (bool, int)):
             return int(v)
         return -999
@@ -166,12 +168,27 @@ def mutate(x, k, seen=None):
 
 # ---- building operands from the case literal: leaf = int, fiber = [[coord list, sub] ...]
 
-def build_fiber(t, shape=None):
+def build_fiber(t, shape=None, d=0, tell_default=True):
+    """representation modes of ftutil (U.MODE): leaves dressed (int / float / int subclass), fibers
+    built in two stages around read-only queries (touch); a non-zero leaf default is told to the
+    fibers themselves only when tell_default"""
     from fibertree import Fiber
+    import ftutil as U
     coords = [c[0] if len(c) == 1 else tuple(c) for c, _ in t]
-    pays = [s if isinstance(s, int) else build_fiber(s) for _, s in t]
+    pays = [U.dress(s_) if isinstance(s_, int) else build_fiber(s_, None, d, tell_default) for _, s_ in t]
     kw = {} if shape is None else {"shape": shape}
-    return Fiber(coords, pays, **kw) if coords else Fiber([], [], **kw)
+    staged = U.MODE.get("touch") and len(coords) >= 2
+    if staged:
+        f = Fiber(coords[:-1], pays[:-1], **kw)
+    else:
+        f = Fiber(coords, pays, **kw) if coords else Fiber([], [], **kw)
+    if d != 0 and tell_default:
+        f._setDefault(U.dress(d))
+    if U.MODE.get("touch"):
+        U.touch(f)
+    if staged:
+        f.append(coords[-1], pays[-1])
+    return f
 
 
 def lit_width(t):
@@ -183,14 +200,26 @@ RANKS = ["M", "K", "N", "P"]
 SHAPE = 16
 
 
-def build_tensor(t, n, flat=1):
-    """n ranks; when flat > 1 the top rank has `flat`-component tuple coordinates"""
+def build_tensor(t, n, flat=1, d=0):
+    """n ranks; when flat > 1 the top rank has `flat`-component tuple coordinates.  In the
+    late_default mode the fibers are not told the leaf default: only T.setDefault(d) afterwards"""
     from fibertree import Tensor
-    root = build_fiber(t)
+    import ftutil as U
+    root = build_fiber(t, None, d, not U.MODE.get("late_default"))
     if flat > 1:
         ids = [RANKS[:flat]] + RANKS[flat:flat + n - 1]
         shape = [tuple([SHAPE] * flat)] + [SHAPE] * (n - 1)
     else:
         ids = RANKS[:n]
         shape = [SHAPE] * n
-    return Tensor.fromFiber(rank_ids=ids, fiber=root, shape=shape)
+    T = Tensor.fromFiber(rank_ids=ids, fiber=root, shape=shape)
+    if d != 0:
+        T.setDefault(U.dress(d))
+    if U.MODE.get("touch"):
+        U.touch(T.getRoot())
+        for q in (lambda: T.getShape(), lambda: T.getDefault(), lambda: T.countValues()):
+            try:
+                q()
+            except Exception:
+                pass
+    return T
